@@ -59,6 +59,7 @@ def run_bfs(module, func, params, max_depth, pool, seed=0, max_states=None, dead
     rng.shuffle(tasks)
     nxt = []
     level_new = 0
+    level_idx = {}        # digest -> index in nxt, for states first seen in this level
     chunk = max(1, min(8, len(tasks) // 64))
     for hist, out in pool.imap_unordered(_expand_task, tasks, chunksize=chunk):
       if not root_done:
@@ -79,11 +80,18 @@ def run_bfs(module, func, params, max_depth, pool, seed=0, max_states=None, dead
             vv.setdefault('history', hist + [ch['op']])
             res.violations.append(vv)
         k = _h(ch['key'])
+        if k in level_idx:
+          # the same state reached by another history in this level: the representative that gets expanded is the smallest
+          # history, so that the search does not depend on the order in which workers deliver results
+          h2 = hist + [ch['op']]
+          if repr(h2) < repr(nxt[level_idx[k]]):
+            nxt[level_idx[k]] = h2
         if k not in seen:
           seen[k] = depth + 1
           res.states += 1
           level_new += 1
           if depth + 1 <= max_depth and not ch.get('terminal'):
+            level_idx[k] = len(nxt)
             nxt.append(hist + [ch['op']])
           if len(res.samples) < 3 and depth + 1 >= min(max_depth, 4):
             res.samples.append({'history': hist + [ch['op']], 'key': str(ch['key'])[:300]})
